@@ -726,7 +726,10 @@ class Engine:
                 if isinstance(fv, VRef):
                     declared.add(fv.addr)
         heap_snap = self.heap_snapshot(declared)
+        same_vals = {nm: env.locals.get(nm) for nm in assigned if types.get(nm) == 'same'}
         self.loop_pc_mark = len(self.pc)
+        self.trace.append(('loop_head', ordn))
+        trace_mark = len(self.trace)
         # decide: one more iteration, or exit
         if kind == 'while':
             go = self.truth(self.eval(st.test, env), 'loop%d.guard' % ordn)
@@ -747,9 +750,18 @@ class Engine:
                 pass
             if broke:
                 # leaves the loop with the state at the break
+                self.trace.append(('loop_break', ordn))
+                if inv.get('on_break'):
+                    inv['on_break'](self, env, self.trace[trace_mark:], fq, ordn)
                 return
             if kind == 'for':
                 env.locals['__k_%d' % ordn] = VI(k + 1)
+            for nm, hv in same_vals.items():
+                if env.locals.get(nm) is not hv:
+                    raise Unsupported('loop %d of %s: variable %s is declared unchanged ("same") but a completed '
+                                      'iteration assigns it' % (ordn, fq, nm))
+            if inv.get('on_iteration'):
+                inv['on_iteration'](self, env, self.trace[trace_mark:], fq, ordn)
             changed = [a for a, txt in self.heap_snapshot(declared).items() if a in heap_snap and heap_snap[a] != txt]
             if changed:
                 raise Unsupported('loop %d of %s modifies heap objects not declared in havoc_heap/havoc_fields: %s'
@@ -761,6 +773,7 @@ class Engine:
                             kind='termination', detail=dec_expr)
             raise PathAbort()   # the arbitrary iteration ends here (cut)
         # exit path: invariant and not guard hold
+        self.trace.append(('loop_exit', ordn))
         if kind == 'for':
             self.assume(k == seq_len)
         self.exec_block(st.orelse, env)
@@ -1254,13 +1267,13 @@ class Engine:
             'Exception subclass, return anything, and leave the namespace stack/level and the '
             'modelled heap as they found them (protocol proved for the repo\'s own render functions)')
         lbl = label or ('call %s' % getattr(fn, 'name', '?'))
-        self.trace.append(('call', getattr(fn, 'name', repr(fn)), tuple(_tr(a) for a in args)))
+        self.trace.append(('call', getattr(fn, 'name', repr(fn)), tuple(_tr(a) for a in args), fn, list(args)))
         if self.decide(2, lbl + ' raises') == 1:
             e = VExc('Exception', [], sym=True, uid=self.fresh('exc'))
             self.trace.append(('raised-by', getattr(fn, 'name', repr(fn))))
             raise PyRaise(e)
         r = self.fresh_opaque('ret')
-        self.trace.append(('returned', getattr(fn, 'name', repr(fn)), r.name))
+        self.trace.append(('returned', getattr(fn, 'name', repr(fn)), r.name, r))
         return r
 
     def inline(self, fn, args, kwargs):
